@@ -172,8 +172,8 @@ for name, inst, tags, tier in [
     ("step_down1_noshrink_b0", "down, WithoutShrink(&bump)", OPS_ALL + ["b0"], "thorough"),
     ("step_up1_set_nodealloc_b0", "up, DEALLOCATES = false", OPS_ALL + ["up", "b0"], "thorough"),
     ("step_down1_set_noshrink_b0", "down, SHRINKS = false", OPS_ALL + ["b0"], "thorough"),
-    ("step_up1_set_noshrink_b0", "up, SHRINKS = false", OPS_ALL + ["up", "b0"], "quick"),
-    ("step_down4_bump_b0", "down, MIN_ALIGN 4 (split + give back the lower part of a block whose end is not min-aligned)", OPS_ALL + ["b0"], "quick"),
+    ("step_up1_set_noshrink_b0", "up, SHRINKS = false", OPS_ALL + ["up", "b0"], "thorough"),
+    ("step_down4_bump_b0", "down, MIN_ALIGN 4 (split + give back the lower part of a block whose end is not min-aligned)", OPS_ALL + ["b0"], "thorough"),
 ]:
     A("step", name, STEP_PROPS + ["C07"], inst, tags=tags, tier=tier, mem_gb=7, timeout_s=2400)
 SWB = "history <= 4 ops: new, symbolic fillers A and B (every legal position of the 16-byte chunk), ONE operation whose new layout is CONCRETE and cannot fit (chunk switch certain; base allocator grants chunk 2 = 112 B); unwind 6"
@@ -182,13 +182,13 @@ for name, inst, tags, tier in [
     ("step_up1_switch_zeroed", "up: allocate_zeroed L(24,8) => chunk 2", ["b1"], "thorough"),
     ("step_up1_switch_dealloc_alloc", "up: deallocate(B) + allocate L(24,8) => chunk 2", ["op5", "b1"], "thorough"),
     ("step_up1_switch_split", "up: split B, give back the upper part, allocate L(24,8) => chunk 2", ["op6", "b1"], "thorough"),
-    ("step_up1_switch_grow", "up: grow to L(20,4) => chunk 2", ["op2", "b1"], "quick"),
+    ("step_up1_switch_grow", "up: grow to L(20,4) => chunk 2", ["op2", "b1"], "thorough"),
     ("step_up1_switch_grow_zeroed", "up: grow_zeroed to L(20,4) => chunk 2", ["b1"], "thorough"),
     ("step_up1_switch_shrink_unfit", "up: shrink of an 8-byte block to L(8,16) (unfit alignment)", ["op4", "unfit"], "thorough"),
-    ("step_down1_switch_alloc", "down: allocate L(24,8) => chunk 2", ["op0", "b1"], "quick"),
+    ("step_down1_switch_alloc", "down: allocate L(24,8) => chunk 2", ["op0", "b1"], "thorough"),
     ("step_down1_switch_zeroed", "down: allocate_zeroed L(24,8) => chunk 2", ["b1"], "thorough"),
     ("step_down1_switch_dealloc_alloc", "down: deallocate(B) + allocate L(24,8) => chunk 2", ["op5", "b1"], "thorough"),
-    ("step_down1_switch_grow", "down: grow to L(20,4) => chunk 2", ["op2", "b1"], "quick"),
+    ("step_down1_switch_grow", "down: grow to L(20,4) => chunk 2", ["op2", "b1"], "thorough"),
     ("step_down8_switch_alloc", "down, MIN_ALIGN 8: allocate L(18,1) => chunk 2", ["op0", "b1"], "thorough"),
     ("step_up4_switch_grow_noshrink", "up, MIN_ALIGN 4, WithoutShrink: grow to L(24,2) => chunk 2", ["op2", "b1"], "thorough"),
 ]:
@@ -221,7 +221,7 @@ for name, inst, tags, tier in [
     ("scope_scoped_down1_b1", "scoped(), down, workload acquires chunk 2", ["b1"], "thorough"),
     ("scope_guard_drop_up1_b1", "scope_guard() + drop", ["b1"], "thorough"),
     ("scope_guard_reset_up1_b0", "scope_guard() + reset() + second scope from the same guard", ["fail"], "quick"),
-    ("scope_checkpoint_up1_b1", "checkpoint() + reset_to()", ["b1"], "quick"),
+    ("scope_checkpoint_up1_b1", "checkpoint() + reset_to()", ["b1"], "thorough"),
     ("scope_checkpoint_down4_b1", "checkpoint() + reset_to(), down, MIN_ALIGN 4", ["b1"], "thorough"),
     ("scope_aligned_up1_b1", "scoped_aligned::<8>()", ["b1"], "thorough"),
     ("scope_aligned_down1_b0", "scoped_aligned::<8>(), down, inside the first chunk", ["fail"], "quick"),
@@ -239,34 +239,45 @@ for name, inst, tags, tier in [
 # C05 chunk release (logging stub checks every deallocate)
 C5B = "new -> <= 2 symbolic allocations that may create chunks 2 and 3 -> end; symbolic failure mask over the base-allocator calls; chunks <= 3 (down: 2); unwind 7"
 for name, inst, tags, tier in [
-    ("release_drop_up1_c3", "drop, up, <= 3 chunks", ["c3"], "quick"),
-    ("release_reset_up1_c3", "reset() then drop, up, <= 3 chunks", ["c3"], "thorough"),
-    ("release_reset_to_start_up1_c2", "reset_to_start() then drop", [], "quick"),
-    ("release_scope_up1_c2", "scope exit then drop", [], "thorough"),
-    ("release_raw_up1_c2", "into_raw / from_raw then drop", [], "thorough"),
-    ("release_drop_down1_c2", "drop, down, <= 2 chunks", [], "quick"),
-    ("release_reset_down1_c2", "reset() then drop, down", [], "quick"),
-    ("release_drop_up1_extra8_c2", "base allocator hands out 8 bytes more than requested", [], "thorough"),
-    ("release_reset_down1_extra24_c2", "down, base allocator hands out 24 bytes more", [], "thorough"),
+    ("release_drop_up1_c3", "drop, up, <= 3 chunks", ["c1", "c2", "c3", "several"], "thorough"),
+    ("release_reset_up1_c3", "reset() then drop, up, <= 3 chunks", ["c1", "c2", "c3"], "thorough"),
+    ("release_reset_to_start_up1_c2", "reset_to_start() then drop", ["c1", "c2", "several"], "quick"),
+    ("release_scope_up1_c2", "scope exit then drop", ["c1", "c2", "several"], "thorough"),
+    ("release_raw_up1_c2", "into_raw / from_raw then drop", ["c1", "c2", "several"], "thorough"),
+    ("release_drop_down1_c2", "drop, down, <= 2 chunks", ["c2", "several"], "quick"),
+    ("release_reset_down1_c2", "reset() then drop, down", ["c2"], "thorough"),
+    ("release_drop_up1_extra8_c2", "base allocator hands out 8 bytes more than requested", ["c1", "c2", "several"], "thorough"),
+    ("release_reset_down1_extra24_c2", "down, base allocator hands out 24 bytes more", ["c2"], "thorough"),
     ("release_unallocated_unused", "unused unallocated Bump: 0 base-allocator calls", [], "quick"),
-    ("release_drop_over_up1_c2", "over-aligned base allocator (header align 32): release layout alignment", [], "quick"),
-    ("release_reset_over_down1_c2", "over-aligned base allocator, down, reset", [], "thorough"),
-    ("release_drop_stateful_down1_c2", "stateful base allocator (48-byte header), down", [], "thorough"),
+    ("release_drop_over_up1_c2", "over-aligned base allocator (header align 32): release layout alignment", ["c2", "several"], "quick"),
+    ("release_reset_over_down1_c2", "over-aligned base allocator, down, reset", ["c2"], "thorough"),
+    ("release_drop_stateful_down1_c2", "stateful base allocator (48-byte header), down", ["c2", "several"], "thorough"),
 ]:
     A("chunks", name, ["C05"], inst, tags=tags, tier=tier, mem_gb=10, timeout_s=2400, bounds=C5B)
 
 # C10 statistics
 C10B = "new -> one allocation (symbolic L(<=24,<=16) in the first chunk, or concrete L(24,4) creating chunk 2) -> follow-up in {none, scope, reset_to_start, reset, deallocate} -> claim; 3 header shapes; chunks <= 2; unwind 6"
 for name, inst, tags, tier in [
-    ("stats_va_up1_b1", "zero-sized allocator (32-byte header), up, chunk 2 created", ["b1"], "quick"),
-    ("stats_va_down1_b1", "zero-sized allocator, down, chunk 2 created", ["b1"], "quick"),
-    ("stats_va_up8_b0", "MIN_ALIGN 8, first chunk only", ["fits", "b0"], "thorough"),
-    ("stats_va_down16_b0", "down, MIN_ALIGN 16", ["fits", "b0"], "thorough"),
-    ("stats_va_extra8_up1_b1", "base allocator hands out 8 bytes more", ["b1"], "thorough"),
-    ("stats_stateful_up1_b1", "stateful allocator (48-byte header), up", ["b1"], "quick"),
-    ("stats_stateful_down1_b1", "stateful allocator (48-byte header), down", ["b1"], "quick"),
-    ("stats_over_up1_b0", "over-aligned allocator (64-byte header, align 32), up", ["fits"], "thorough"),
-    ("stats_over_down1_b0", "over-aligned allocator, down", ["fits"], "thorough"),
+    ("stats_coherent_va_up1_b1", "identities, zero-sized allocator (32-byte header), up, chunk 2 created", ["b1"], "quick"),
+    ("stats_coherent_va_down1_b1", "identities, down, chunk 2 created", ["b1"], "quick"),
+    ("stats_coherent_va_up8_b0", "identities, MIN_ALIGN 8, first chunk only", ["fits", "b0"], "thorough"),
+    ("stats_coherent_va_down16_b0", "identities, down, MIN_ALIGN 16", ["fits", "b0"], "thorough"),
+    ("stats_coherent_extra8_up1_b1", "identities, base allocator hands out 8 bytes more", ["b1"], "thorough"),
+    ("stats_coherent_stateful_up1_b1", "identities, stateful allocator (48-byte header), up", ["b1"], "quick"),
+    ("stats_coherent_stateful_down1_b1", "identities, stateful allocator, down", ["b1"], "thorough"),
+    ("stats_coherent_over_up1_b0", "identities, over-aligned allocator (64-byte header, align 32), up", ["fits"], "thorough"),
+    ("stats_coherent_over_down1_b0", "identities, over-aligned allocator, down", ["fits"], "quick"),
+    ("stats_any_va_up1_b0", "any_stats == stats field by field, zero-sized allocator", ["fits", "b0"], "quick"),
+    ("stats_any_va_down1_b1", "any_stats == stats, down, two chunks", ["b1"], "thorough"),
+    ("stats_any_stateful_up1_b1", "any_stats == stats, stateful allocator (48-byte header), up, two chunks", ["b1"], "quick"),
+    ("stats_any_stateful_down1_b1", "any_stats == stats, stateful allocator, down", ["b1"], "quick"),
+    ("stats_any_over_up1_b0", "any_stats == stats, over-aligned allocator, up", ["fits"], "quick"),
+    ("stats_any_over_down1_b0", "any_stats == stats, over-aligned allocator, down", ["fits"], "thorough"),
+    ("stats_followup_va_up1_b0", "identities after scope exit / reset_to_start / reset / deallocate", ["fits", "b0"], "quick"),
+    ("stats_followup_va_down4_b0", "same, down, MIN_ALIGN 4", ["fits", "b0"], "thorough"),
+    ("stats_followup_va_up1_b1", "same with two chunks (reset keeps one)", ["b1"], "thorough"),
+    ("stats_claimed_va_up1_b0", "claimed arena reports zeros (typed and type-erased); the guard is coherent", ["fits", "b0"], "quick"),
+    ("stats_claimed_stateful_down1_b1", "same, stateful allocator, down", ["b1"], "thorough"),
     ("stats_unallocated_zero", "unallocated arena reports zeros", [], "quick"),
 ]:
     A("stats", name, ["C10"], inst, tags=tags, tier=tier, mem_gb=10, timeout_s=2400, bounds=C10B)
@@ -274,13 +285,13 @@ for name, inst, tags, tier in [
 # C18 alignment
 C18B = "new (outer MIN_ALIGN M), filler L(<=5,<=4), aligned::<N> with two allocations L(<=8,<=8) (with budget the first is the concrete L(20,4) => chunk switch while N is in force), allocation after; unwind 6"
 for name, inst, tags, tier in [
-    ("aligned_1_to_8_up_b0", "raise 1 -> 8, up", [], "quick"),
+    ("aligned_1_to_8_up_b0", "raise 1 -> 8, up", ["room"], "quick"),
     ("aligned_1_to_16_down_b0", "raise 1 -> 16, down", [], "quick"),
     ("aligned_16_to_1_up_b0", "lower 16 -> 1, up", [], "quick"),
     ("aligned_8_to_2_down_b0", "lower 8 -> 2, down", [], "thorough"),
-    ("aligned_4_to_1_up_b1", "lower 4 -> 1, up, chunk switch while lowered", ["b1"], "quick"),
-    ("aligned_16_to_2_down_b1", "lower 16 -> 2, down, chunk switch while lowered", ["b1"], "thorough"),
-    ("aligned_1_to_4_up_b1", "raise 1 -> 4, up, chunk switch while raised", ["b1"], "thorough"),
+    ("aligned_4_to_1_up_b1", "lower 4 -> 1, up, chunk switch while lowered", ["b1", "room"], "quick"),
+    ("aligned_16_to_2_down_b1", "lower 16 -> 2, down, chunk switch while lowered", ["b1", "room"], "thorough"),
+    ("aligned_1_to_4_up_b1", "raise 1 -> 4, up, chunk switch while raised", ["b1", "room"], "thorough"),
     ("settings_raise_alignment", "with_settings / borrow_mut_with_settings raising MIN_ALIGN", [], "quick"),
     ("nopanic_with_settings_ok", "conversions on an allocated, unclaimed arena never panic", [], "quick"),
 ]:
@@ -290,26 +301,26 @@ H("kani-arena", "align::panic_with_settings_claimed", ["C18"], kind="must_panic"
 
 # C17 entry points (two arenas in lock-step)
 C17B = "two arenas, same settings and stub, the same symbolic filler L(<=9,<=8), ONE request through two entry points; unwind 6"
-for name, inst, tier in [
-    ("entry_sized_u8_up1", "try_alloc_uninit::<u8> / try_allocate_sized vs allocate(Layout) / try_allocate_layout", "quick"),
-    ("entry_sized_u32_up1", "u32", "quick"),
-    ("entry_sized_u8x3_down1", "[u8;3], down", "quick"),
-    ("entry_sized_u64_down4", "u64, down, MIN_ALIGN 4", "thorough"),
-    ("entry_sized_u64x2_up8", "[u64;2], MIN_ALIGN 8", "thorough"),
-    ("entry_sized_u64x3_up1", "[u64;3] (does not fit: both fail)", "quick"),
-    ("entry_slice_u8_up1", "try_alloc_uninit_slice::<u8>(n) vs allocate(Layout::array), any n", "quick"),
-    ("entry_slice_u32_down1", "u32 slice, down, any n (overflow included)", "quick"),
-    ("entry_slice_u16_up4", "u16 slice, MIN_ALIGN 4", "thorough"),
-    ("entry_handles_up1", "Bump vs BumpScope vs &mut vs &dyn BumpAllocatorCore (allocate, try_allocate_layout) vs &mut dyn MutBumpAllocatorCore vs inside scoped()", "quick"),
-    ("entry_handles_down8", "handles, down, MIN_ALIGN 8", "thorough"),
-    ("entry_twin_up1", "alloc(v) vs try_alloc(v)", "quick"),
-    ("entry_twin_down1", "alloc(v) vs try_alloc(v), down", "thorough"),
-    ("entry_vec_typed_vs_dyn_up1", "BumpVec over &Bump vs over &dyn BumpAllocatorCoreScope: shrink_to_fit / into_boxed_slice", "thorough"),
-    ("entry_vec_typed_vs_dyn_nodealloc_up1", "same, DEALLOCATES = false, SHRINKS = true", "quick"),
-    ("entry_vec_typed_vs_dyn_nodealloc_down4", "same, down, MIN_ALIGN 4, DEALLOCATES = false", "quick"),
-    ("entry_vec_typed_vs_dyn_noshrink_down1", "same, down, SHRINKS = false", "thorough"),
+for name, inst, tier, tags in [
+    ("entry_sized_u8_up1", "try_alloc_uninit::<u8> / try_allocate_sized vs allocate(Layout) / try_allocate_layout", "quick", ["fit"]),
+    ("entry_sized_u32_up1", "u32", "quick", ["fit"]),
+    ("entry_sized_u8x3_down1", "[u8;3], down", "quick", ["fit"]),
+    ("entry_sized_u64_down4", "u64, down, MIN_ALIGN 4", "thorough", ["fit"]),
+    ("entry_sized_u64x2_up8", "[u64;2], MIN_ALIGN 8", "thorough", ["fit", "nofit"]),
+    ("entry_sized_u64x3_up1", "[u64;3] (does not fit: both fail)", "quick", ["nofit"]),
+    ("entry_slice_u8_up1", "try_alloc_uninit_slice::<u8>(n) vs allocate(Layout::array), any n", "quick", []),
+    ("entry_slice_u32_down1", "u32 slice, down, any n (overflow included)", "quick", []),
+    ("entry_slice_u16_up4", "u16 slice, MIN_ALIGN 4", "thorough", []),
+    ("entry_handles_up1", "Bump vs BumpScope vs &mut vs &dyn BumpAllocatorCore (allocate, try_allocate_layout) vs &mut dyn MutBumpAllocatorCore vs inside scoped()", "quick", []),
+    ("entry_handles_down8", "handles, down, MIN_ALIGN 8", "thorough", []),
+    ("entry_twin_up1", "alloc(v) vs try_alloc(v)", "quick", []),
+    ("entry_twin_down1", "alloc(v) vs try_alloc(v), down", "thorough", []),
+    ("entry_vec_typed_vs_dyn_up1", "BumpVec over &Bump vs over &dyn BumpAllocatorCoreScope: shrink_to_fit / into_boxed_slice", "thorough", []),
+    ("entry_vec_typed_vs_dyn_nodealloc_up1", "same, DEALLOCATES = false, SHRINKS = true", "thorough", []),
+    ("entry_vec_typed_vs_dyn_nodealloc_down4", "same, down, MIN_ALIGN 4, DEALLOCATES = false", "thorough", []),
+    ("entry_vec_typed_vs_dyn_noshrink_down1", "same, down, SHRINKS = false", "thorough", []),
 ]:
-    A("entry", name, ["C17"], inst, tier=tier, mem_gb=6, bounds=C17B)
+    A("entry", name, ["C17"], inst, tier=tier, tags=tags, mem_gb=6, bounds=C17B, timeout_s=3600 if "vec_typed" in name else 1800)
 
 # C07 failures
 for name, inst, tier in [
@@ -318,11 +329,11 @@ for name, inst, tier in [
     ("fail_switch_up1", "request that needs chunk 2 under refusal: allocate / allocate_zeroed / grow / try_reserve", "quick"),
     ("fail_switch_down4", "same, down, MIN_ALIGN 4", "thorough"),
     ("fail_unallocated", "first allocation of an unallocated arena under refusal, then recovery", "quick"),
-    ("fail_vec_up", "BumpVec growth under refusal: try_reserve / try_extend_from_slice_copy / try_resize / try_push", "quick"),
+    ("fail_vec_up", "BumpVec growth under refusal: try_reserve / try_extend_from_slice_copy / try_resize / try_push", "thorough"),
     ("fail_vec_down", "same, down", "thorough"),
 ]:
     A("fail", name, ["C07"], inst, tier=tier, mem_gb=6, bounds="<= 3 base-allocator calls, concrete refusal schedule (budget 0 at the failing call); sizes symbolic; unwind 6")
-H("kani-arena", "fail::panic_alloc_refused", ["C07"], kind="must_panic", expect_fail=[r"hae_stub"], stubbing=True, inst="alloc / reserve / alloc_uninit_slice under refusal end in handle_alloc_error", unwind=6, timeout_s=900, mem_gb=4, note=AR_STUBS, bounds="1 chunk")
+H("kani-arena", "fail::panic_alloc_refused", ["C07"], kind="must_panic", expect_fail=[r"handle_alloc_error"], stubbing=True, inst="alloc / reserve / alloc_uninit_slice under refusal end in handle_alloc_error", unwind=6, timeout_s=900, mem_gb=4, note=AR_STUBS, bounds="1 chunk")
 H("kani-arena", "fail::panic_capacity_overflow", ["C07"], kind="must_panic", expect_fail=[r"capacity_overflow"], stubbing=True, inst="alloc_uninit_slice::<u64>(n), any overflowing n", unwind=6, timeout_s=900, mem_gb=4, note=AR_STUBS, bounds="1 chunk")
 
 # C12 cross-check of the placement model on the real arena
@@ -343,7 +354,7 @@ for name, inst, tier in [
     ("c12x_first_va_down", "first allocation, down", "thorough"),
     ("c12x_first_stateful_up", "first allocation, stateful allocator", "thorough"),
 ]:
-    A("c12x", name, ["C12"], inst, tags=["refused"], tier=tier, mem_gb=8, bounds=C12X)
+    A("c12x", name, ["C12"], inst, tags=(["reserve"] if "reserve" in name else []), tier=tier, mem_gb=12, bounds=C12X)
 
 # C15 exclusive-borrow collections (+ their C08 capacity clauses)
 C15B = "concrete shape per harness (filler bytes, reserved capacity, <= 3 pushes, which push is granted a new chunk), symbolic element values; 16-byte first chunk; unwind 8"
@@ -355,12 +366,12 @@ for name, inst, tags, tier in [
     ("mutvec_u8_up1_stay_drop", "MutBumpVec<u8>, dropped", ["stay"], "quick"),
     ("mutvec_u16_up1_switch_final", "creation does not fit: vector starts in chunk 2", ["switch"], "quick"),
     ("mutvec_u16_down1_switch_drop", "creation in chunk 2, down, dropped", ["switch"], "thorough"),
-    ("mutvec_u16_up1_grow_final", "3rd push re-prepares in chunk 2 and copies", ["switch"], "quick"),
-    ("mutvec_u16_down1_grow_final", "growth by copy, down", ["switch"], "quick"),
+    ("mutvec_u16_up1_grow_final", "3rd push re-prepares in chunk 2 and copies", ["switch"], "thorough"),
+    ("mutvec_u16_down1_grow_final", "growth by copy, down", ["switch"], "thorough"),
     ("mutvec_u8_up1_grow_drop", "growth by copy then dropped", ["switch"], "thorough"),
     ("mutvecrev_u8_up1_stay_final", "MutBumpVecRev<u8>, up", ["stay"], "quick"),
     ("mutvecrev_u16_down1_stay_final", "MutBumpVecRev<u16>, down", ["stay"], "quick"),
-    ("mutvecrev_u16_up1_grow_final", "MutBumpVecRev growth by copy", ["switch"], "quick"),
+    ("mutvecrev_u16_up1_grow_final", "MutBumpVecRev growth by copy", ["switch"], "thorough"),
     ("mutvecrev_u8_down4_grow_drop", "MutBumpVecRev growth by copy, down, MIN_ALIGN 4, dropped", ["switch"], "thorough"),
     ("mutvecrev_u32_up1_switch_final", "MutBumpVecRev<u32> created in chunk 2", ["switch"], "thorough"),
 ]:
@@ -373,30 +384,72 @@ for name, props, inst, tags, tier in [
     ("vec_push_grow_up1_blocked", ["C08"], "another block behind the buffer: must move", ["moved", "fail"], "thorough"),
     ("vec_push_grow_up1_newchunk", ["C08"], "growth into chunk 2", ["moved"], "thorough"),
     ("vec_push_grow_down4_newchunk", ["C08"], "growth into chunk 2, down, MIN_ALIGN 4", ["moved"], "thorough"),
-    ("vec_push_grow_drops_up1", ["C06", "C08"], "BumpVec<D>: elements moved not dropped; dropped exactly once with the vector", [], "quick"),
+    ("vec_push_grow_drops_up1", ["C06", "C08"], "BumpVec<D>: elements moved not dropped; dropped exactly once with the vector", [], "thorough"),
     ("vec_push_grow_drops_down1_blocked", ["C06", "C08"], "BumpVec<D>, down, must move", [], "thorough"),
     ("vec_push_grow_drops_up1_newchunk", ["C06", "C08"], "BumpVec<D>, growth into chunk 2", [], "thorough"),
-    ("vec_split_independent_up1", ["C16"], "BumpVec<u8>::split_off(..at / at..) then push / shrink_to_fit / drop / into_boxed_slice on one part", [], "quick"),
-    ("vec_split_independent_down1", ["C16"], "same, down", [], "quick"),
+    ("vec_split_independent_up1", ["C16"], "BumpVec<u8>::split_off(..at / at..) then push / shrink_to_fit / drop / into_boxed_slice on one part", [], "thorough"),
+    ("vec_split_independent_down1", ["C16"], "same, down", [], "thorough"),
     ("vec_split_independent_up1_b1", ["C16"], "same, growth may create chunk 2", [], "thorough"),
-    ("vec_reserve_any", ["C08", "C07"], "try_reserve / try_reserve_exact with ANY additional (full width)", [], "quick"),
+    ("vec_reserve_any", ["C08", "C07"], "try_reserve / try_reserve_exact with ANY additional (full width)", [], "thorough"),
     ("vec_shrink_min_align_down8", ["C10", "C08", "C01"], "BumpVec<u8> shrink_to_fit / shrink_to / into_boxed_slice, down, MIN_ALIGN 8 > align_of::<u8>()", [], "quick"),
     ("vec_shrink_min_align_up4", ["C10", "C08", "C01"], "same, up, MIN_ALIGN 4", [], "quick"),
     ("vec_shrink_min_align_down1", ["C10", "C08"], "same, down, MIN_ALIGN 1", [], "thorough"),
 ]:
     A("vecs", name, props, inst, tags=tags, tier=tier, mem_gb=8, bounds="BumpVec with <= 4 elements in the 16-byte chunk, concrete shape, symbolic values / split point / follow-up; unwind 8")
 
-# C19 pool (sequentialised)
-H("kani-arena", "pool::pool_two_threads", ["C19"], stubbing=True, cbmc_args=FS, inst="2 logical threads, 4 scheduler steps (symbolic choice of the thread per step), then pool reset_to_start / reset / drop",
-  bounds="2 logical threads, <= 4 pool operations, <= 2 arenas of one 48-byte chunk; real preemption NOT modelled", unwind=7, timeout_s=3000, mem_gb=16, note=AR_STUBS + "; std::sync::Mutex::lock stubbed by must-succeed try_lock")
+# slice-level typed entry points (C10 position clause, C13 opt-out, C17 typed vs dyn, C01/C02 for shrink_slice)
+for name, props, inst, tags, tier in [
+    ("slice_shrink_down8", ["C10", "C01", "C02"], "try_allocate_slice::<u8>(7) + shrink_slice(7 -> any n), down, MIN_ALIGN 8", ["some"], "quick"),
+    ("slice_shrink_up4", ["C10", "C01", "C02"], "same (8 bytes), up, MIN_ALIGN 4", ["some"], "quick"),
+    ("slice_shrink_down1", ["C10", "C01", "C02"], "same, down, MIN_ALIGN 1", ["moves", "some"], "thorough"),
+    ("slice_shrink_down4_set_noshrink", ["C13", "C10"], "same, down, MIN_ALIGN 4, SHRINKS = false", [], "quick"),
+    ("slice_shrink_typed_vs_dyn_up1", ["C17"], "shrink_slice through &Bump vs &dyn BumpAllocatorCore, lock-step", ["some"], "thorough"),
+    ("slice_shrink_typed_vs_dyn_nodealloc_up1", ["C17", "C13"], "same, DEALLOCATES = false, SHRINKS = true", ["some"], "quick"),
+    ("slice_shrink_typed_vs_dyn_nodealloc_down4", ["C17", "C13"], "same, down, MIN_ALIGN 4", ["some"], "quick"),
+]:
+    A("slices", name, props, inst, tags=tags, tier=tier, mem_gb=6, bounds="new, filler L(<=4,<=4), a 7-byte slice, shrink_slice to ANY new length <= 7, one allocation after; unwind 6")
+
+# C19 pool (sequentialised): one concrete schedule of two logical threads per harness
+for name, inst, tier in [
+    ("pool_handoff_get", "hand-off: T0.get, allocate+write, T0.drop, T1.get via try_get, allocate; arena re-issued, data intact", "quick"),
+    ("pool_handoff_with_capacity", "hand-off, second acquisition via try_get_with_capacity(32 B) (does not fit the idle arena's remaining space)", "quick"),
+    ("pool_overlap_get", "overlap: T0.get, T1.get (two live guards => two arenas), both allocate", "quick"),
+    ("pool_overlap_with_capacity", "overlap, second acquisition via try_get_with_capacity", "thorough"),
+    ("pool_handoff_then_drop", "hand-off, guards dropped, pool dropped: every chunk returned exactly once", "quick"),
+    ("pool_overlap_then_drop", "overlap, guards dropped, pool dropped", "quick"),
+    ("pool_overlap_then_reset", "overlap, guards dropped, pool.reset()", "thorough"),
+    ("pool_handoff_then_reset_to_start", "hand-off via try_get_with_capacity, pool.reset_to_start()", "thorough"),
+]:
+    H("kani-arena", "pool::" + name, ["C19"], stubbing=True, cbmc_args=FS, inst=inst, tier=tier,
+      bounds="2 logical threads, 4 pool operations in a FIXED order per harness (hand-off / overlap), <= 2 arenas of one 48-byte chunk, symbolic data; real preemption NOT modelled", unwind=7, timeout_s=2400, mem_gb=10,
+      note=AR_STUBS + "; std::sync::Mutex::lock stubbed by must-succeed try_lock")
 
 
-def for_property(pid, tier):
+# Harnesses that exist but have not (yet) been run to completion within the machine's budget are parked here: they are
+# NOT part of any tier (a check must never be inconclusive on the unchanged tree); `bin/check --exp` runs them.
+EXPERIMENTAL = {
+    "vec_reserve_any": "out of memory at 16 GB after 27 min (symbolic usize flowing through the chunk-size arithmetic and the slow path)",
+}
+# every BumpVec-level arena harness (vecs.rs) and the BumpVec lock-step harnesses: none finishes within 30 min / 20 GB
+# (each push keeps the whole grow machinery alive and `in_another_chunk` is unrolled to the unwinding bound at every
+# call site); replaced by the slice-level harnesses of slices.rs
+for _n in ["vec_push_grow_up1_newest", "vec_push_grow_down1_newest", "vec_push_grow_up1_blocked", "vec_push_grow_up1_newchunk", "vec_push_grow_down4_newchunk",
+           "vec_push_grow_drops_up1", "vec_push_grow_drops_down1_blocked", "vec_push_grow_drops_up1_newchunk", "vec_split_independent_up1",
+           "vec_split_independent_down1", "vec_split_independent_up1_b1", "vec_shrink_min_align_down8", "vec_shrink_min_align_up4", "vec_shrink_min_align_down1",
+           "fail_vec_up", "fail_vec_down", "entry_vec_typed_vs_dyn_up1", "entry_vec_typed_vs_dyn_nodealloc_up1", "entry_vec_typed_vs_dyn_nodealloc_down4",
+           "entry_vec_typed_vs_dyn_noshrink_down1"]:
+    EXPERIMENTAL[_n] = "BumpVec on the real arena: not decided within 30 min / 20 GB"
+EXPERIMENTAL["pool_overlap_then_reset"] = "out of memory at 17 GB (two arenas + pool.reset walking both)"
+
+
+def for_property(pid, tier, exp=False):
     out = []
     for h in HARNESSES:
         if pid not in h["props"]:
             continue
-        if tier == "quick" and h["tier"] != "quick":
+        if (h["name"] in EXPERIMENTAL) != exp:
+            continue
+        if not exp and tier == "quick" and h["tier"] != "quick":
             continue
         out.append(h)
     return out
